@@ -19,7 +19,7 @@ def checkCurrent (env : Env) (cur root : Fd) (expected : List Bytes) : M Unit :=
   let rootPath ← Procfs.asUnsafePath env root
   let fullPath := Path.expectedFullPath rootPath expected
   let curPath ← Procfs.asUnsafePath env cur
-  if !Path.pathEq curPath fullPath then throw .safetyViolation
+  if !Path.pathEq curPath fullPath then throw .safetyViolation else
   let newRootPath ← Procfs.asUnsafePath env root
   if !Path.pathEq rootPath newRootPath then throw .safetyViolation
 
@@ -150,6 +150,7 @@ decreasing_by
 def doResolve (env : Env) (root : Fd) (path : Bytes) (rflags : Nat) (nofollow useStack : Bool) :
     M (Lookup Fd × SStack) := do
   let rootDup ← Sys.dup root
+  if path = [] then pure (.part rootDup [] (.os ENOENT), []) else
   walk env { root := rootDup, rflags, nofollow, useStack }
     { expected := [], cur := rootDup, rem := Path.rawComponents path, links := 0, stack := [] }
 
